@@ -98,6 +98,7 @@ struct VM
     std::unique_ptr<sqf::runtime::runtime> rt;
     std::unique_ptr<VMMon> mon;
     bool poisoned = false; // an exception escaped; do not reuse
+    vj::value cfg;         // the step that created this VM (for auto_renew)
     ~VM();
 };
 
